@@ -58,9 +58,10 @@ func (c20Driver) Info() core.Info {
 			"the state of an indent writer after a failed Write is unspecified by the property: a run ends at the first failing Write",
 			"with nested writers 'the caller's bytes that reached the underlying writer' is read compositionally (each level counts the bytes of its own caller); because rendering is monotone this equals byte provenance from the top-level caller to the bottom sink, which is what the oracle computes",
 		},
-		Real:       []string{"indent.NewWriter", "(*iw).Write", "actualWrittenSize", "indent.String", "indent.Bytes"},
-		Stub:       []string{"underlying io.Writer (simulated sink with seeded stop point / error)", "caller's division into Write calls (seeded)"},
-		FaultKinds: []string{"sink-stop-short", "sink-error-after-full-accept"},
+		Real:            []string{"indent.NewWriter", "(*iw).Write", "actualWrittenSize", "indent.String", "indent.Bytes"},
+		Stub:            []string{"underlying io.Writer (simulated sink with seeded stop point / error)", "caller's division into Write calls (seeded)"},
+		FaultKinds:      []string{"sink-stop-short", "sink-error-after-full-accept"},
+		InProcessShrink: true,
 	}
 }
 
